@@ -115,5 +115,17 @@ CONTRACTS = [
        ensures=[("C09-same-as-bytes", "result == old(WIRE())"), FRAME],
        top=["C09-same-as-bytes"],
        props=["C09", "C14"]),
+    FN("betterproto.Message.__getstate__",
+       types={**MSG}, returns="bytes", modifies=["self"],
+       requires=PRE,
+       ensures=[("C14-pickle-state-is-the-encoding", "result == old(WIRE())"), FRAME],
+       top=["C14-pickle-state-is-the-encoding"],
+       props=["C14"]),
+    FN("betterproto.Message.__reduce__",
+       types={**MSG}, returns="any", modifies=["self"],
+       requires=PRE,
+       ensures=[("C14-pickle-arguments-are-the-encoding", "result[1][0] == old(WIRE())"), FRAME],
+       top=["C14-pickle-arguments-are-the-encoding"],
+       props=["C14"]),
 ]
 EXTRA_CONTRACTS = _s.CONTRACTS + _v.CONTRACTS
